@@ -13,6 +13,7 @@ import (
 	"net/url"
 	"reflect"
 	"runtime/pprof"
+	"sync"
 	"sync/atomic"
 	"time"
 
@@ -430,12 +431,17 @@ func (c *client) provide(outs []interface{}) error {
 
 func (c *client) makeOutChan(ctx context.Context, ftyp reflect.Type, valOut int) (func() reflect.Value, makeChanSink) {
 	retVal := reflect.Zero(ftyp.Out(valOut))
+	// retVal is written by the frame executor (chCtor) and read by the calling goroutine, which may
+	// have been woken by closeInFlight rather than by the executor
+	var retLk sync.Mutex
 
 	chCtor := func() (context.Context, func([]byte, bool)) {
 		// unpack chan type to make sure it's reflect.BothDir
 		ctyp := reflect.ChanOf(reflect.BothDir, ftyp.Out(valOut).Elem())
 		ch := reflect.MakeChan(ctyp, 0) // todo: buffer?
+		retLk.Lock()
 		retVal = ch.Convert(ftyp.Out(valOut))
+		retLk.Unlock()
 
 		incoming := make(chan reflect.Value, 32)
 
@@ -532,7 +538,11 @@ func (c *client) makeOutChan(ctx context.Context, ftyp reflect.Type, valOut int)
 		}
 	}
 
-	return func() reflect.Value { return retVal }, chCtor
+	return func() reflect.Value {
+		retLk.Lock()
+		defer retLk.Unlock()
+		return retVal
+	}, chCtor
 }
 
 func (c *client) sendRequest(ctx context.Context, req request, chCtor makeChanSink) (clientResponse, error) {
